@@ -293,7 +293,7 @@ func c12Language(c *hx.Ctx, r *hx.RNG) {
 		}
 	}
 	if r.Chance(3) { // the infinity spellings and their neighbours
-		s = []string{"", "+", "-", "+-", " "}[r.Intn(5)] + []string{"Inf", "inf", "INF", "iNF", "Infinity", "infinity", "in", "Inff", "inf ", "Inf.", "Inf0", "nan", "NaN", "i", "I", "1nf"}[r.Intn(16)]
+		s = []string{"", "+", "-", "+-", " "}[r.Intn(5)] + []string{"Inf", "inf", "INF", "iNF", "Infinity", "infinity", "in", "Inff", "inf ", "Inf.", "Inf0", "nan", "NaN", "i", "I", "1nf", "<nil>", "null", "nil", "Null", "NULL", "true", "0x", "undefined", "none", "{}"}[r.Intn(26)]
 	}
 	base := []int{0, 2, 8, 10, 16}[r.Intn(5)]
 	mode := r.Mode()
